@@ -11,6 +11,7 @@ and over both shapes `cfg` of the comparison that guards `ResetAppendIndex`.
 Helper lemmas: `LinVerif/Lemmas/C08Log.lean`, `LinVerif/Lemmas/C08Inv.lean`.
 -/
 import LinVerif.Lemmas.C08Inv
+import LinVerif.Lemmas.C08Live
 import LinVerif.Generated.C08
 
 namespace LinVerif.Props.C08
@@ -183,6 +184,33 @@ theorem resync_progress (cfg : Cfg) (evs : List Ev) (hs : Synced (run cfg evs))
   refine ⟨rfl, by simp only [Log.put], rfl, ?_, ⟨hs.1, hs.2⟩⟩
   rw [get_put_eq hf.ack_app, ← hc, hm]
 
+/-- Resynchronisation needs no operator: from ANY reachable state whose channel is not ready
+(after any fault), with the follower live and the loop not parked, one fault-free
+`partition.replica` call ends with the channel synced. -/
+theorem resync_one_step (cfg : Cfg) (evs : List Ev) (hn : (run cfg evs).chan ≠ .ready)
+    (hl : (run cfg evs).live = true) (hs : (run cfg evs).susp = false) :
+    Synced (next cfg (run cfg evs) (.step .none)).1 := by
+  simp only [next]
+  rw [if_neg (by rw [hs]; simp)]
+  exact replicaStep_none_syncs cfg _ (binv_run cfg evs).1 hn hl
+
+/-- The same for a loop parked on an offline follower: the online notification alone resumes it
+and, without a further fault, the channel ends synced. -/
+theorem resync_online (cfg : Cfg) (evs : List Ev) (hn : (run cfg evs).chan ≠ .ready)
+    (hs : (run cfg evs).susp = true) :
+    Synced (next cfg (run cfg evs) (.online .none)).1 := by
+  simp only [next]
+  rw [if_pos hs]
+  exact replicaStep_none_syncs cfg _ (inv_mk (binv_run cfg evs).1 rfl rfl rfl rfl rfl rfl rfl) hn rfl
+
+/-- A synced channel stays synced under fault-free steps. -/
+theorem resync_stays_synced (cfg : Cfg) (evs : List Ev) (h : Synced (run cfg evs))
+    (hs : (run cfg evs).susp = false) :
+    Synced (next cfg (run cfg evs) (.step .none)).1 := by
+  simp only [next]
+  rw [if_neg (by rw [hs]; simp)]
+  exact replicaStep_none_stays cfg _ h
+
 /-! ## 5. ties to the regenerated facts (replica/*.go, app/storage/rpc/replica.go, pkg/queue/*.go) -/
 
 namespace Tie
@@ -339,6 +367,13 @@ example : (run { fixed := false } [.append [1], .step .none, .flose, .append [2]
     (isReady { fixed := false } (run { fixed := false } [.append [1], .step .none, .flose, .append [2], .step .none]) .none).2 = true ∧
     (isReady { fixed := false } (run { fixed := false } [.append [1], .step .none, .flose, .append [2], .step .none]) .none).1.F.ack = 0 := by
   decide
+
+/-- `resync_one_step`'s and `resync_online`'s hypotheses are satisfiable -/
+example : (run { fixed := false } [.append [1], .step .send]).chan ≠ .ready ∧
+    (run { fixed := false } [.append [1], .step .send]).live = true ∧
+    (run { fixed := false } [.append [1], .step .send]).susp = false := by decide
+example : (run { fixed := false } [.offline, .step .none]).chan ≠ .ready ∧
+    (run { fixed := false } [.offline, .step .none]).susp = true := by decide
 
 /-! ## 7. where the code violates the agreement clause -/
 
